@@ -166,7 +166,9 @@ def generate(rng, tier, prop):
             old = {"held": rng.randrange(997)} if rng.random() < 0.6 else _ref(rng, npool)
             new = {"pool": rng.randrange(npool)} if rng.random() < 0.8 else _ref(rng, npool)
             ops.append({"op": "replace", "old": old, "new": new, "fail": rng.random() < p_fail})
-    return {"config": {"pool": pool}, "ops": ops}
+    # a second library holding some of the same block objects: nothing done to the first may show in it
+    bystander = [rng.randrange(npool) for _ in range(rng.randint(0, 4))] if rng.random() < 0.5 else None
+    return {"config": {"pool": pool, "bystander": bystander}, "ops": ops}
 
 
 def simplifications(run):
@@ -373,6 +375,13 @@ def execute(run, props):
     ever_removed_keys = set()
     last_snapshot = None
 
+    by = None
+    by_snap = None
+    if run["config"].get("bystander") is not None:
+        by = libmod.Library(blocks=[world.pool[i % len(world.pool)] for i in run["config"]["bystander"]])
+        by_snap = (snapshot(by), [id(b) for b in by.blocks])
+        res.probes["bystander_library"] += 1
+
     def ensure_lib():
         nonlocal lib
         if lib is None:
@@ -560,6 +569,18 @@ def execute(run, props):
             if isinstance(r, M.DuplicateBlockKeyBlock) and id(r) not in caller_known:
                 res.probes["library_made_duplicate_wrapper_held"] += 1
                 break
+
+        if by is not None:
+            try:
+                now = (snapshot(by), [id(b) for b in by.blocks])
+                bad_by = view_invariants(by)
+            except Exception as e:  # noqa
+                now, bad_by = None, [("unreadable", str(e))]
+            if now != by_snap or bad_by:
+                res.violate("C08", "isolation", f"C08/isolation/after-{label}", step,
+                            f"{label} on one library changed another library that holds some of the same blocks"
+                            + (f": {bad_by[0][1]}" if bad_by else f": its blocks / key sets went from {by_snap[0][1:]} to {now[0][1:]}"))
+                return res
 
         slots = _resync(lib, caller_known)
         if post != pre_snapshot:
